@@ -125,7 +125,7 @@ func indexOf(s string, ch byte) int {
 }
 
 const (
-	runBudget = 40000000
+	runBudget = 60000000
 	opBudget  = 6000000
 )
 
@@ -173,12 +173,19 @@ func (p *Prop) Run(t *simhook.Tape, opt simkit.RunOpt) *simkit.RunResult {
 	if cold {
 		ntasks = 3
 	}
+	if c.pl.huge != nil && ntasks > 4 {
+		// a call on the huge slice costs ~25 yields per element: keep the run within its step budget
+		ntasks = 4
+	}
 	for tk := 0; tk < ntasks; tk++ {
 		var lst []int
 		if cold {
 			lst = g.Perm(len(pln.calls))
 		} else {
 			k := g.Range(1, 6)
+			if c.pl.huge != nil && k > 2 {
+				k = 2
+			}
 			for i := 0; i < k; i++ {
 				lst = append(lst, g.Intn(len(pln.calls)))
 			}
